@@ -769,8 +769,7 @@ Proof.
     assert (Hdest : forall f, In f (failed st) -> m_dest f <> c).
     { intros f Hf Hd. destruct (H2 f Hf) as [Ha Hb]. rewrite Hd in Ha, Hb.
       simpl in Econd. rewrite Ha, Hb in Econd. simpl in Econd. discriminate. }
-    split; [constructor; simpl; auto|exact Hdest].
-    intros f Hf. apply (Hother f Hf). auto.
+    split; [constructor; simpl; auto; intros f Hf; apply (Hother f Hf); auto|exact Hdest].
 Qed.
 
 Lemma unregister_FI st c p lo : FI st lo -> FI (unregister st c p) lo.
@@ -799,9 +798,9 @@ Lemma step_FI st o lo :
   FI st lo -> match o with Post _ _ i _ => lo <= i | _ => True end -> snd (step st o) <> ORaised ->
   FI (fst (step st o)) (nlo lo o).
 Proof.
-  intros H Hid Hnr. destruct o; simpl in *.
-  - now apply post_FI.
-  - now apply register_FI.
+  intros H Hid Hnr. destruct o as [s0 d0 i0 t0|c ag|c p| | |]; simpl in *.
+  - apply (post_FI st s0 d0 i0 t0 lo H Hid).
+  - apply (register_FI st c ag lo H Hnr).
   - now apply unregister_FI.
   - now apply next_FI.
   - destruct H as [H1 H2 H3]. constructor; auto.
@@ -866,9 +865,9 @@ Qed.
 Lemma ids_ok_last lo a b : ids_ok lo (a ++ b) -> exists lo', ids_ok lo' b /\ forall st,
   FI st lo -> noraise (snd (run st a)) = true -> FI (exec st a) lo'.
 Proof.
-  revert lo. induction a as [|o r IH]; intros lo H; simpl in *.
-  - exists lo. split; auto.
-  - destruct H as [H1 H2]. destruct (IH _ H2) as (lo' & Hb & Hf). exists lo'. split; auto.
+  revert lo. induction a as [|o r IH]; intros lo H.
+  - exists lo. split; [exact H|]. intros st HFI _. exact HFI.
+  - simpl in H. destruct H as [H1 H2]. destruct (IH _ H2) as (lo' & Hb & Hf). exists lo'. split; auto.
     intros st HFI Hnr. rewrite run_cons in Hnr. simpl in Hnr. apply andb_true_iff in Hnr as [Hn1 Hn2].
     rewrite exec_cons. apply Hf; auto. apply step_FI; auto.
     intros E. rewrite E in Hn1. discriminate.
